@@ -113,6 +113,8 @@ def run(ctx, col, tier):
     col.check(ok, "R-UNIF", d.qualname, d.loc(rets[0]) if rets else d.loc(), "returns (count of kept nodes, columns, source, names)",
               "", "tree arguments are not (number of kept nodes, gathered columns, source, names)", stmt="ret")
     d2 = repo.get_def(f"{TU}.to_sub_tree")
+    from ..rules import ignoredparam
+    ignoredparam.run(ctx, col, ('swcgeom.transforms.tree', 'swcgeom.core.tree_utils', 'swcgeom.core.tree_utils_impl', 'swcgeom.core.swc_utils.subtree'))
     col.guard(gather_rule, ctx, col, d2, "swc_like", ["swc_like.keys()"], "to_sub_tree (deprecated)")
     d3 = repo.get_def("swcgeom.core.branch_tree.BranchTree.from_tree")
     col.guard(gather_rule, ctx, col, d3, "tree", ["tree.keys()"], "BranchTree.from_tree")
